@@ -929,6 +929,16 @@ def correspond(ctx):
     cases = make_cases(ctx)
     out = run_impl(ctx, cases)
     items, owner = [], []          # Coq items and (case index, which observation)
+    # the lifting law of EVERY operator method of AbstractObject (argument forwarding + end to end on patterns)
+    try:
+        lr = ctx.impl('c13_lifting', {})
+        c.count('operator_methods_probed', lr.get('methods', 0))
+        c.evaluations_extra = getattr(c, 'evaluations_extra', 0) + lr.get('methods', 0)
+        for b in lr['bad'][:3]:
+            c.failures.append(Failure('correspondence', 'operator lifting law fails on %s: got %s, expected %s' % (b['expr'], b['got'], b['want']),
+                                      signature='C13:operator_lifting', found_input=True, theorem='narop_ends_with_shortest', replay=b))
+    except fw.ImplError as e_:
+        c.failures.append(Failure('correspondence', 'operator lifting probe did not run: %s' % e_))
     for e in RERUN[:3]:
         c.failures.append(Failure('correspondence', 'the same case gives another result when run again later in the same process: %s' % show(e),
                                   signature='C13:process_state', found_input=True, theorem='streams_independent',
